@@ -55,8 +55,10 @@ from ..ast.fpyast import (
     StmtBlock,
     Var,
 )
+from ..ast.fpyast import NamedId, WhileStmt
 from ..ast.visitor import DefaultTransformVisitor
 from ..utils import Gensym
+from .rename_target import RenameTarget
 
 
 @dataclasses.dataclass
@@ -81,6 +83,7 @@ class _ReduceFusionInstance(DefaultTransformVisitor):
 
     def __init__(self, func: FuncDef, def_use: DefineUseAnalysis):
         self.func = func
+        self.def_use = def_use
         self.gensym = Gensym(reserved=def_use.names())
 
     def apply(self) -> FuncDef:
@@ -132,8 +135,22 @@ class _ReduceFusionInstance(DefaultTransformVisitor):
             Assign(acc, None, combine, e.loc),
         ])
 
+        # A comprehension target is local to the comprehension; a loop
+        # target is not.  Rename any target that is also bound elsewhere in
+        # the function, or the loop would overwrite that variable.
+        rename: dict[NamedId, NamedId] = {
+            name: self.gensym.refresh(name)
+            for name in target.names()
+            if len(self.def_use.name_to_defs.get(name, ())) > 1
+        }
+        loop: Stmt = ForStmt(target, iterable, body, e.loc)
+        if rename:
+            renamed = RenameTarget.apply_block(StmtBlock([ForStmt(target, BoolVal(True, e.loc), body, e.loc)]), rename).stmts[0]
+            assert isinstance(renamed, ForStmt)
+            loop = ForStmt(renamed.target, iterable, renamed.body, e.loc)
+
         ctx.stmts.append(Assign(acc, None, BoolVal(not is_any, e.loc), e.loc))
-        ctx.stmts.append(ForStmt(target, iterable, body, e.loc))
+        ctx.stmts.append(loop)
         return Var(acc, e.loc)
 
     # ------------------------------------------------------------------
@@ -147,6 +164,13 @@ class _ReduceFusionInstance(DefaultTransformVisitor):
         iterables = [self._visit_expr(i, None) for i in e.iterables]
         elt = self._visit_expr(e.elt, None)
         return ListComp(targets, iterables, elt, e.loc)
+
+    def _visit_while(self, stmt: WhileStmt, ctx: Any):
+        # The condition is evaluated again before every iteration; a loop
+        # hoisted in front of the statement would run once.
+        cond = self._visit_expr(stmt.cond, None)
+        body, _ = self._visit_block(stmt.body, ctx)
+        return WhileStmt(cond, body, stmt.loc), ctx
 
     def _visit_if_expr(self, e: IfExpr, ctx: Any) -> IfExpr:
         # The branches are conditional; hoisting a loop out of one would run
